@@ -157,6 +157,7 @@ type gkrCircuit struct {
 	Out  [][]frontend.Variable `gnark:",public"` // [sink][instance]
 	topo *gkrTopo
 	ninst int
+	vfirst bool // call Solution.Verify before Export (the exported / imported values must not be touched by the verifier)
 }
 
 func newGkrCircuit(t *gkrTopo, n int) *gkrCircuit {
@@ -215,6 +216,11 @@ func (c *gkrCircuit) Define(api frontend.API) error {
 	if err != nil {
 		return err
 	}
+	if c.vfirst {
+		if err := sol.Verify("mimc"); err != nil {
+			return err
+		}
+	}
 	// exported values: equal to the expected (public) ones AND to the direct in-circuit evaluation
 	exported := make([][]frontend.Variable, len(sinks))
 	for si, w := range sinks {
@@ -257,6 +263,9 @@ func (c *gkrCircuit) Define(api frontend.API) error {
 		for si, w := range sinks {
 			api.AssertIsEqual(exported[si][k], v[w])
 		}
+	}
+	if c.vfirst {
+		return nil
 	}
 	return sol.Verify("mimc")
 }
@@ -335,6 +344,7 @@ func runC19(args []string) int {
 		mode   string
 		in     [][]*big.Int
 		wrong  bool
+		vfirst bool
 		cls    string
 		msg    string
 	}
@@ -360,6 +370,7 @@ func runC19(args []string) int {
 	runOne := func(j *job) {
 		tmpl := newGkrCircuit(j.t, j.n)
 		asg := mkAsg(j.t, j.n, j.in, j.wrong)
+		tmpl.vfirst, asg.vfirst = j.vfirst, j.vfirst
 		if j.mode == "engine" {
 			var err error
 			pm := catchPanic(func() { err = test.IsSolved(tmpl, asg, bnQ) })
@@ -424,6 +435,9 @@ func runC19(args []string) int {
 				jobs = append(jobs, &job{t: t, n: n, mode: m, in: in})
 			}
 			jobs = append(jobs, &job{t: t, n: n, mode: "engine", in: in, wrong: true}, &job{t: t, n: n, mode: "r1cs", in: in, wrong: true})
+			if n > 1 {
+				jobs = append(jobs, &job{t: t, n: n, mode: "engine", in: in, vfirst: true}, &job{t: t, n: n, mode: "r1cs", in: in, vfirst: true})
+			}
 		}
 	}
 	// crossing / non-monotone series dependencies between instances (4 instances)
@@ -462,7 +476,10 @@ func runC19(args []string) int {
 	wg.Wait()
 	for _, j := range jobs {
 		desc := c19Desc{Topo: j.t, NInst: j.n, Mode: j.mode, Detail: j.msg}
-		rep.Eval(fmt.Sprintf("%s|%d|%s|%v", j.t, j.n, j.mode, j.wrong), true)
+		rep.Eval(fmt.Sprintf("%s|%d|%s|%v|%v", j.t, j.n, j.mode, j.wrong, j.vfirst), true)
+		if j.vfirst {
+			desc.Mode += "/verify-before-export"
+		}
 		rep.Count(fmt.Sprintf("%s:%v:%s", j.mode, map[bool]string{false: "valid", true: "wrong-output"}[j.wrong], j.cls))
 		for _, op := range j.t.Ops {
 			if !j.wrong && j.mode == "engine" {
